@@ -21,7 +21,7 @@ CONSTANTS
   Behs = {"ok", "oneshot", "raise"}
   InitDescs <- GenInit
   Descs <- GenDescs
-  GIdents <- GIdentsT
+  GIdents <- GIdentsM
   GLevels <- GLevelsT
   EmitOneIn = 1
   MaxCbs = 2
